@@ -321,6 +321,10 @@ def run(case, j):
             est.score_threshold_type, est.score_threshold = dc["thr"][0], float(dc["thr"][1])
         j.lib("fit:earlier-history", sel.fit, est, dc["X"], dc["y"], spec)
         est.score_threshold, est.score_threshold_type = None, "absolute"
+        if spec["cls"] == "VoronoiFPS" and spec["kw"].get("full_fraction") is None:
+            # the timing-calibrated value was written into the parameter (known finding K3 of C09; a value of 0, which
+            # a loaded machine produces now and then, makes the next cold fit raise): re-configured like the rest
+            est.full_fraction = None
         j.note("estimators_with_a_past")
     seq = []
     any_stop = False
